@@ -3,7 +3,7 @@
    [run fixed e l]: the endpoint (one underlay with its session table) e handles the history l of network
    inputs; [fixed = true] is the tree with fixes/C10-cross-user-session-id.diff (the code that exists now),
    [fixed = false] the pinned code. A Go panic is the distinct result [RunPanic site]. *)
-From Coq Require Import NArith List Bool.
+From Coq Require Import NArith ZArith List Bool.
 From M Require Import gen.Consts model.Dispatch proofs.DispatchReadProofs proofs.DispatchProofs.
 Import ListNotations.
 Open Scope N_scope.
@@ -138,3 +138,10 @@ Print Assumptions owner_stable_under_input.
 (* an owner taken from s.userName alone is undefined on the created session (the seeded variant) *)
 Example username_only_undefined_at_creation : forall sid pol, owner_username_only (created_session sid pol) = 0.
 Proof. exact username_only_has_window. Qed.
+
+(* ---- the syntactic tie of read_one_error_typed to the code: in the source of /repo, no error return of
+   StreamUnderlay.readOneSegment (and of the functions whose errors it hands on) is untyped; a new
+   `return nil, err` with a plain error breaks this obligation before any witness is found *)
+Theorem C10_consts_ok : C10_StreamReadUntypedReturns = 0%Z /\ (0 < C10_StreamReadErrorReturns)%Z.
+Proof. exact stream_read_returns_typed_in_source. Qed.
+Print Assumptions C10_consts_ok.
